@@ -251,9 +251,14 @@ def rule_r3(chk: Check) -> None:
             if enc is not None and not (isinstance(enc, ast.Constant) and str(enc.value).lower().replace("_", "-") in ("utf-8", "utf8")):
                 ok = False
                 chk.finding("R3", sr.key, f"body-codec:{txt[:40]}", f"text bodies are encoded with `{norm(enc)}`, not UTF-8", w.where())
-            if kwarg(core, "errors") is not None and "body" in txt:
+            # UTF-8 encodes every character except lone surrogates, which have no
+            # encoding at all: with the UTF-8 codec the error mode cannot alter any
+            # encodable text, it only decides whether an unencodable one raises.
+            # With any other codec an error handler silently alters ordinary text.
+            utf8 = enc is None or (isinstance(enc, ast.Constant) and str(enc.value).lower().replace("_", "-") in ("utf-8", "utf8"))
+            if kwarg(core, "errors") is not None and "body" in txt and not utf8:
                 ok = False
-                chk.finding("R3", sr.key, f"body-lossy:{txt[:40]}", "text bodies are encoded with an error handler that alters characters", w.where())
+                chk.finding("R3", sr.key, f"body-lossy:{txt[:40]}", "text bodies are encoded with a codec and error handler that alter characters", w.where())
             core = method_call(core)[0]
         if isinstance(core, ast.JoinedStr) or (isinstance(core, ast.Name)):
             continue  # header
